@@ -139,6 +139,11 @@ theorem C02_space_of_screen_load_save (s : Screen) (h : Valid s) (ok : NamesOK s
 theorem C02_space_empty_not_loadable (e : Space) (h : e.tnames = []) : e.save.load = .error .typeError :=
   space_load_save_empty e h
 
+/-- ... nor one whose sample mapping alone is empty -/
+theorem C02_space_empty_samples_not_loadable (e : Space) (htn : ∀ n ∈ e.tnames, NameOK n) (hne : e.tnames ≠ [])
+    (h : e.snames = []) : e.save.load = .error .typeError :=
+  space_load_save_empty' e htn hne h
+
 /-! ### the hypotheses are satisfiable by a non-trivial screen: non-ASCII, astral and empty names of unequal
     length, empty control name, an observed and an unobserved plate, strict-superset mappings -/
 
